@@ -542,7 +542,7 @@ def t_label_def(facts, res, tier):
                             used[a.template] = e
             # a condition folded at compile time emits no branch: generate_condition(.., true) returned Some(_)
             for k2, (allowed, excl) in st.cons.items():
-                if k2.startswith("ret") and ":generate_condition" in k2 and allowed is not None and set(allowed) == {"Some"}:
+                if k2.startswith("ret") and (":generate_condition" in k2 or ":generate_simple_condition" in k2) and allowed is not None and set(allowed) == {"Some"}:
                     folded = True
             for tmpl, e in used.items():
                 rec = per_label.setdefault(tmpl, {"ok": 0, "bad": [], "folded": 0})
